@@ -13,17 +13,17 @@ func init() {
 		run: runC17,
 		explanation: "Decided (structural, for every open/close/concurrent-use sequence): " +
 			"C17.guarded — every read, update and delete of the driver's connection-cache map holds the driver mutex (exclusively for update/delete); " +
-			"C17.atomic — in the function that opens a file connection, the cache lookup, the updog.OpenIndex call and the cache insert all execute with the mutex held exclusively and no path from the lookup to the insert passes an unlock (one critical section), and the reference count of a found connection is incremented inside it. This is a necessary condition here because bbolt takes an exclusive flock: two first users that both reach OpenIndex block forever; " +
-			"C17.evict — in the connection's Close, every path to (*updog.Index).Close first deletes the connection from the cache, the delete and the reference-count decrement hold the mutex exclusively and no unlock lies between them, so a closed connection can never be handed out again. " +
-			"C17.connstate — every write to a field of the file connection object (shared by all pool slots of a DSN) after its construction holds the driver mutex exclusively; " +
+			"C17.atomic — in the function that opens a file connection, a cache lookup and the cache insert execute with the mutex held exclusively and no path from that lookup to the insert passes an unlock (one critical section); a lookup under the read lock in front of it (fast path) may only find a connection and take a reference, it licenses neither an open nor an insert; every reference on a found connection is taken with the mutex held (shared suffices) in the critical section of its lookup. The updog.OpenIndex call either lies in that exclusive critical section after the lookup, or is run by a sync.Once of the registered connection itself, whose outcome is stored in that connection, with every connection handed out only after Do returned on it without error (one OpenIndex per registered connection). This is a necessary condition here because bbolt takes an exclusive flock: two first users that both reach OpenIndex block forever; " +
+			"C17.evict — in the connection's Close (helpers followed), every path to (*updog.Index).Close first deletes the connection from the cache (or finds that the registered entry is another connection), the delete holds the mutex exclusively, and the decision to tear down is made under the mutex: the reference-count decrement shares an exclusive critical section with the delete, or the delete is reached only where a re-read of the count in its own exclusive critical section was <= 0 — so a closed connection can never be handed out again. " +
+			"C17.connstate — every write to a field of the file connection object (shared by all pool slots of a DSN) after its construction holds the driver mutex exclusively (or runs once under the connection's own sync.Once before the connection is handed out, see atomic); " +
 			"C17.cacheowner — the query cache given to an index is created for that index in the opening function (a cache shared between files or surviving a reopen returns another file's bitmaps). " +
 			"NOT decided: correctness of rows on an open handle beyond that (C12); database/sql's pool behaviour (trusted); two DSNs that name the same file with different option strings still open the file twice (second open blocks on the flock) — recorded in DESIGN.md as outside the decided clauses.",
-		assumptions: []string{"sync.RWMutex semantics", "database/sql calls driver.Conn.Close once per handed-out connection", "bbolt holds an exclusive flock while a DB is open"},
+		assumptions: []string{"sync.RWMutex semantics", "sync.Once semantics (the function runs once; its effects happen before every return of Do)", "database/sql calls driver.Conn.Close once per handed-out connection", "bbolt holds an exclusive flock while a DB is open"},
 	})
 }
 
 func runC17(c *Ctx) {
-	const g, at, ev = "C17.guarded", "C17.atomic", "C17.evict"
+	const g, at = "C17.guarded", "C17.atomic"
 	if !c.need(g, c.a.DrvOpen, c.a.DrvOpenFile, c.a.FileConnClose, c.a.DriverT, c.a.FileConnT, c.a.OpenIndex, c.a.IndexClose, c.a.FileStmtT, c.a.RowsT) {
 		return
 	}
@@ -91,11 +91,42 @@ func runC17(c *Ctx) {
 	// reference-counted object to each driver.Open), so database/sql's "one goroutine per connection" rule does not
 	// protect its fields. Every write to a field of the connection type outside its construction must hold the driver
 	// mutex exclusively (atomic counters are method calls, not field writes, and are not instances).
+	// Equivalent protocol: the fields are set inside the function literal run by a sync.Once of the connection itself
+	// (the index opened by the first user outside the driver-wide lock). Every user of the connection got it from the
+	// open function, which — decided by c17OnceOpen below — hands a connection out only after Do returned on it, and Do
+	// orders the literal's writes before every return of Do: the writes are part of the connection's construction.
+	scopeO := c.scope(c.a.DrvOpenFile, 2)
+	onces := c17OnceInits(c, scopeO)
+	onceOK := map[*ssa.Function]bool{}
+	type onceVerdict struct {
+		o           *ssa.Call
+		ok, decided bool
+		msg         string
+		at          ssa.Instruction
+	}
+	var onceOpens []onceVerdict
+	instrsOf(scopeO, func(i ssa.Instruction) {
+		call, ok := i.(*ssa.Call)
+		if !ok || calleeFunc(&call.Call) != c.a.OpenIndex || onces[i.Parent()] == nil {
+			return
+		}
+		v := onceVerdict{o: call}
+		v.ok, v.decided, v.msg, v.at = c17OnceOpen(c, call, onces[i.Parent()])
+		onceOpens = append(onceOpens, v)
+		onceOK[i.Parent()] = v.ok
+	})
 	nCS := 0
 	for _, fn := range re.sorted() {
 		for _, e := range fr.writes(fn) {
 			if e.Fresh {
 				continue
+			}
+			if oi := onces[fn]; oi != nil && onceOK[fn] {
+				if st, isSt := e.Ins.(*ssa.Store); isSt && oi.fieldOfConn(c, st.Addr) != nil {
+					nCS++
+					c.r.ok("C17.connstate", fmt.Sprintf("%s: %s fileConn.%s", safeFname(fn), e.Kind, oi.fieldOfConn(c, st.Addr).Name()), "set once, under the connection's own sync.Once, before the connection is handed out")
+					continue
+				}
 			}
 			var fld *types.Var
 			for _, f := range e.fields() {
@@ -134,17 +165,44 @@ func runC17(c *Ctx) {
 	cacheMapValue := func(v ssa.Value) bool { return path(v).lastField() == cache }
 
 	// ---- atomic (openFile) ----
-	// the function that holds the critical section: the open function itself or the helper it delegates to
+	// the function that holds the critical section: the open function itself or the helper it delegates to — the first
+	// one with a lookup under the exclusive lock that also (itself or through a helper) registers the connection; failing
+	// that the one that registers it, then one with a lookup under the exclusive lock, then any one that looks at the cache
+	// (a read-locked fast path in front of the critical section is judged below; the identity test of an eviction helper
+	// on the failure path is a lookup too, hence the preference)
 	of := c.a.DrvOpenFile
-	for _, f := range c.scope(c.a.DrvOpenFile, 2) {
-		has := false
-		allInstrs(f, func(i ssa.Instruction) {
-			if lk, ok := i.(*ssa.Lookup); ok && cacheMapValue(lk.X) {
-				has = true
+	var allInserts []ssa.Instruction
+	instrsOf(scopeO, func(i ssa.Instruction) {
+		if mu, ok := i.(*ssa.MapUpdate); ok && cacheMapValue(mu.Map) {
+			allInserts = append(allInserts, i)
+		}
+	})
+	for pass := 0; pass < 4; pass++ {
+		var hit *ssa.Function
+		for _, f := range scopeO {
+			exclLk, lkAny, ins, insLift := false, false, false, false
+			allInstrs(f, func(i ssa.Instruction) {
+				if lk, ok := i.(*ssa.Lookup); ok && cacheMapValue(lk.X) {
+					lkAny = true
+					if la.stateAt(i)[mtx] == lkW {
+						exclLk = true
+					}
+				}
+			})
+			for _, i := range allInserts {
+				if i.Parent() == f {
+					ins, insLift = true, true
+				} else if c.liftTo(i, f) != nil {
+					insLift = true
+				}
 			}
-		})
-		if has {
-			of = f
+			if (pass == 0 && exclLk && insLift) || (pass == 1 && ins) || (pass == 2 && exclLk) || (pass == 3 && lkAny) {
+				hit = f
+				break
+			}
+		}
+		if hit != nil {
+			of = hit
 			break
 		}
 	}
@@ -157,6 +215,14 @@ func runC17(c *Ctx) {
 			return i
 		}
 		return c.liftTo(i, of)
+	}
+	isRefAdd := func(i ssa.Instruction) bool {
+		call, ok := i.(*ssa.Call)
+		if !ok {
+			return false
+		}
+		name := calleeName(&call.Call)
+		return name == "(*sync/atomic.Int32).Add" || name == "(*sync/atomic.Int64).Add" || name == "sync/atomic.AddInt32" || name == "sync/atomic.AddInt64"
 	}
 	instrsOf(c.scope(of, 2), func(i ssa.Instruction) {
 		if i.Parent() != of && lift(i) == nil {
@@ -172,33 +238,78 @@ func runC17(c *Ctx) {
 				inserts = append(inserts, i)
 			}
 		case *ssa.Call:
-			if calleeFunc(&x.Call) == c.a.OpenIndex {
+			if calleeFunc(&x.Call) == c.a.OpenIndex && onces[i.Parent()] == nil {
 				opens = append(opens, i)
 			}
-			name := calleeName(&x.Call)
-			if name == "(*sync/atomic.Int32).Add" || name == "(*sync/atomic.Int64).Add" || name == "sync/atomic.AddInt32" || name == "sync/atomic.AddInt64" {
+			if isRefAdd(i) {
 				incs = append(incs, i)
 			}
 		}
 	})
 	site := c.w.pos(of.Pos())
-	if len(lookups) == 0 || len(inserts) == 0 || len(opens) == 0 {
-		c.r.undecided(at, safeFname(of), fmt.Sprintf("expected a cache lookup, an OpenIndex call and a cache insert in the open function (found %d/%d/%d)", len(lookups), len(opens), len(inserts)), site)
+	if len(inserts) == 0 || len(opens)+len(onceOpens) == 0 || len(lookups)+len(inserts)+len(opens) == 0 {
+		c.r.undecided(at, safeFname(of), fmt.Sprintf("expected a cache lookup, an OpenIndex call and a cache insert in the open function (found %d/%d/%d)", len(lookups), len(opens)+len(onceOpens), len(inserts)), site)
 	} else {
 		okAll := true
+		excl := "lookup, open and insert are not one critical section, so concurrent first users can both try to open the (exclusively locked) index file"
+		// A lookup under the READ lock is a fast path: it may find a registered connection and take a reference (the
+		// tear-down decides under the exclusive lock, C17.evict, so it cannot overlap), but it licenses neither an open nor an
+		// insert — those need a lookup in their own exclusive critical section (checked below with the exclusive lookups
+		// only, which is what reports a fast path without re-check).
+		var wLookups []ssa.Instruction
+		for _, i := range lookups {
+			switch la.stateAt(i)[mtx] {
+			case lkW:
+				wLookups = append(wLookups, i)
+			case lkR:
+			default:
+				okAll = false
+				c.r.bad(at, safeFname(of)+": cache lookup", "the cache lookup does not hold "+lockName+": "+excl, []string{c.w.ipos(i)})
+			}
+		}
+		isWLookup := func(i ssa.Instruction) bool {
+			for _, l := range wLookups {
+				if lift(l) == i {
+					return true
+				}
+			}
+			return false
+		}
 		for _, grp := range []struct {
 			what string
 			ins  []ssa.Instruction
-		}{{"cache lookup", lookups}, {"OpenIndex call", opens}, {"cache insert", inserts}, {"reference-count update", incs}} {
+		}{{"OpenIndex call", opens}, {"cache insert", inserts}} {
 			for _, i := range grp.ins {
 				if la.stateAt(i)[mtx] != lkW {
 					okAll = false
-					c.r.bad(at, safeFname(of)+": "+grp.what, "the "+grp.what+" does not hold "+lockName+" exclusively: lookup, open and insert are not one critical section, so concurrent first users can both try to open the (exclusively locked) index file", []string{c.w.ipos(i)})
+					c.r.bad(at, safeFname(of)+": "+grp.what, "the "+grp.what+" does not hold "+lockName+" exclusively: "+excl, []string{c.w.ipos(i)})
 				}
 			}
 		}
+		// a reference is taken with the mutex held (shared suffices, see above) in the critical section of the lookup that
+		// found the connection
+		for _, i := range incs {
+			if la.stateAt(i)[mtx] == lkU {
+				okAll = false
+				c.r.bad(at, safeFname(of)+": reference-count update", "the reference-count update does not hold "+lockName+": the connection found by the lookup can be torn down by a concurrent last Close before the reference is taken", []string{c.w.ipos(i)})
+				continue
+			}
+			// (only for a counter reached from the value of a cache lookup, i.e. the connection that lookup found — not
+			// the new connection's first reference; a receiver the rule cannot trace to its lookup is not judged here)
+			l := c17LookupOf(callCommon(i).Args[0])
+			if l == nil || !cacheMapValue(l.X) || l.Parent() != i.Parent() {
+				continue
+			}
+			f := i.Parent()
+			allInstrs(f, func(u ssa.Instruction) {
+				if isUnlock(u) && c.fc.reachableFrom(f, l, u) && c.fc.reachableFrom(f, u, i) && c.fc.pathAvoiding(f, l, func(x ssa.Instruction) bool { return x == i }, func(x ssa.Instruction) bool { return x == u }) == nil {
+					okAll = false
+					c.r.bad(at, safeFname(of)+": unlock between lookup and reference-count update", "the mutex is released between the lookup that finds the connection and the reference taken on it: a concurrent last Close tears the connection down in between", []string{c.w.ipos(u)})
+				}
+			})
+		}
 		// no unlock between lookup and insert
-		for _, lk0 := range lookups {
+		for _, lk0 := range wLookups {
 			lk := lift(lk0)
 			allInstrs(of, func(u ssa.Instruction) {
 				if !isUnlock(u) || !c.fc.reachableFrom(of, lk, u) {
@@ -213,105 +324,51 @@ func runC17(c *Ctx) {
 				}
 			})
 		}
-		// OpenIndex must come after a lookup on every path (otherwise the cache is bypassed)
-		for _, o0 := range opens {
-			o := lift(o0)
-			if p := c.fc.pathAvoiding(of, nil, func(i ssa.Instruction) bool { return i == o }, func(i ssa.Instruction) bool {
-				for _, l := range lookups {
-					if lift(l) == i {
-						return true
-					}
+		// OpenIndex and the insert must come after a lookup under the exclusive lock on every path (otherwise the cache
+		// is bypassed, or consulted only by a fast path whose answer is stale by the time the exclusive lock is held)
+		for _, grp := range []struct {
+			what, msg string
+			ins       []ssa.Instruction
+		}{
+			{"open without lookup", "OpenIndex is reachable without consulting the connection cache under the exclusive lock first", opens},
+			{"insert without lookup", "a connection is registered without consulting the connection cache under the exclusive lock first: it replaces a registered connection whose index is open, and its own open waits for the file lock", inserts},
+		} {
+			for _, o0 := range grp.ins {
+				o := lift(o0)
+				if p := c.fc.pathAvoiding(of, nil, func(i ssa.Instruction) bool { return i == o }, isWLookup); p != nil {
+					okAll = false
+					c.r.bad(at, safeFname(of)+": "+grp.what, grp.msg, []string{c.w.ipos(o)}, c.fc.witnessStrings(p)...)
 				}
-				return false
-			}); p != nil {
-				okAll = false
-				c.r.bad(at, safeFname(of)+": open without lookup", "OpenIndex is reachable without consulting the connection cache first", []string{c.w.ipos(o)}, c.fc.witnessStrings(p)...)
 			}
 		}
-		if okAll {
+		// the index opened by the connection itself, once (see c17OnceOpen)
+		for _, v := range onceOpens {
+			key := safeFname(v.o.Parent()) + ": OpenIndex under the connection's sync.Once"
+			var sites []string
+			if v.at != nil {
+				sites = []string{c.w.ipos(v.at)}
+			}
+			switch {
+			case v.ok:
+			case v.decided:
+				okAll = false
+				c.r.bad(at, key, v.msg, sites)
+			default:
+				okAll = false
+				c.r.undecided(at, key, v.msg, sites...)
+			}
+		}
+		if okAll && len(onceOpens) > 0 {
+			c.r.ok(at, safeFname(of), "lookup, insert and reference count update in one exclusive critical section; OpenIndex once per registered connection (its sync.Once), before the connection is handed out", site)
+		} else if okAll {
 			c.r.ok(at, safeFname(of), "lookup, OpenIndex, insert and reference count update in one exclusive critical section", site)
 		}
 	}
 
-	// ---- evict (Close) ----
-	cl := c.a.FileConnClose
-	for _, f := range c.scope(c.a.FileConnClose, 2) {
-		has := false
-		allInstrs(f, func(i ssa.Instruction) {
-			if call, ok := i.(*ssa.Call); ok && calleeFunc(&call.Call) == c.a.IndexClose {
-				has = true
-			}
-		})
-		if has {
-			cl = f
-			break
-		}
-	}
-	var dels, idxCloses, decs []ssa.Instruction
-	allInstrs(cl, func(i ssa.Instruction) {
-		call, ok := i.(*ssa.Call)
-		if !ok {
-			return
-		}
-		if b, ok := call.Call.Value.(*ssa.Builtin); ok && b.Name() == "delete" && cacheMapValue(call.Call.Args[0]) {
-			dels = append(dels, i)
-		}
-		if calleeFunc(&call.Call) == c.a.IndexClose {
-			idxCloses = append(idxCloses, i)
-		}
-		name := calleeName(&call.Call)
-		if name == "(*sync/atomic.Int32).Add" || name == "(*sync/atomic.Int64).Add" {
-			decs = append(decs, i)
-		}
-	})
-	csite := c.w.pos(cl.Pos())
-	if len(idxCloses) == 0 {
-		c.r.undecided(ev, safeFname(cl), "the connection's Close does not call (*Index).Close directly", csite)
-		return
-	}
-	okAll := true
-	isDel := func(i ssa.Instruction) bool {
-		for _, d := range dels {
-			if d == i {
-				return true
-			}
-		}
-		return false
-	}
-	for _, ic := range idxCloses {
-		if p := c.fc.pathAvoiding(cl, nil, func(i ssa.Instruction) bool { return i == ic }, isDel); p != nil {
-			okAll = false
-			c.r.bad(ev, safeFname(cl)+": close without evict", "the index is closed on a path that does not remove the connection from the cache: the next open of the same file is handed a connection whose index is closed", []string{c.w.ipos(ic)}, c.fc.witnessStrings(p)...)
-		}
-	}
-	for _, d := range dels {
-		if la.stateAt(d)[mtx] != lkW {
-			okAll = false
-			c.r.bad(ev, safeFname(cl)+": delete", "the cache entry is deleted without holding "+lockName+" exclusively", []string{c.w.ipos(d)})
-		}
-	}
-	for _, d := range decs {
-		if la.stateAt(d)[mtx] != lkW {
-			okAll = false
-			c.r.bad(ev, safeFname(cl)+": decrement", "the reference count is decremented outside the critical section that evicts the connection: a concurrent open can take a reference to a connection that is about to be closed", []string{c.w.ipos(d)})
-		}
-		allInstrs(cl, func(u ssa.Instruction) {
-			if !isUnlock(u) || !c.fc.reachableFrom(cl, d, u) {
-				return
-			}
-			for _, x := range dels {
-				if c.fc.reachableFrom(cl, u, x) {
-					okAll = false
-					c.r.bad(ev, safeFname(cl)+": unlock between decrement and delete", "the mutex is released between the decrement that reached zero and the eviction", []string{c.w.ipos(u)})
-				}
-			}
-		})
-	}
+	// ---- evict (Close) ---- (rules_ag30.go)
+	c17Evict(c, la, mtx, cache, lockName, isUnlock)
 	cacheOwnerRule(c, "C17.cacheowner")
 	// queries on one handle run concurrently on one Index: the concurrency rules of the library for package-level state
 	// apply to everything the driver's entry points reach
 	globalsRule(c, "C17.globals", re)
-	if okAll {
-		c.r.ok(ev, safeFname(cl), "last Close evicts the connection before closing the index, in the critical section of the decrement", csite)
-	}
 }
